@@ -93,16 +93,24 @@ func genLongRepr(r *vu.Rng) []string {
 }
 
 type pair struct {
-	a, b *decw
+	a, b   *decw
+	maxStr int
 }
 
 // writeAll is runBlock that also reports whether the saveBuf paranoia bound fired:
 // the only path on which Write returns (0, ErrStringLength) for a non-empty p.
-func writeAll(w *decw, chunks [][]byte) (em []hpack.HeaderField, err error, paranoia bool) {
+func writeAll(w *decw, chunks [][]byte, maxStr int, o *vu.Out) (em []hpack.HeaderField, err error, paranoia bool) {
+	fed := 0
 	for _, c := range chunks {
 		n, e := w.d.Write(c)
+		fed += len(c)
 		if e != nil {
-			return w.takeEmits(), e, e == hpack.ErrStringLength && n == 0 && len(c) > 0
+			paranoia = e == hpack.ErrStringLength && n == 0 && len(c) > 0
+			// the documented bound is 2*(maxStrLen+8) unparsed bytes; it must not fire below that
+			if paranoia && fed <= 2*(maxStr+8) {
+				o.Fail("", fmt.Sprintf("saveBuf bound fired after only %d bytes of the block (maxStrLen=%d)", fed, maxStr))
+			}
+			return w.takeEmits(), e, paranoia
 		}
 	}
 	err = w.d.Close()
@@ -129,7 +137,7 @@ func exec(ops []string, o *vu.Out) {
 func (p *pair) step(t []string, o *vu.Out) string {
 	if t[0] == "new" && len(t) == 2 {
 		n := uint32(vu.Atoi(t[1]))
-		p.a, p.b = newDecw(n), newDecw(n)
+		p.a, p.b, p.maxStr = newDecw(n), newDecw(n), 0
 		return "ok"
 	}
 	if p.a == nil {
@@ -137,8 +145,9 @@ func (p *pair) step(t []string, o *vu.Out) string {
 	}
 	switch {
 	case t[0] == "maxstr" && len(t) == 2:
-		p.a.d.SetMaxStringLength(vu.Atoi(t[1]))
-		p.b.d.SetMaxStringLength(vu.Atoi(t[1]))
+		p.maxStr = vu.Atoi(t[1])
+		p.a.d.SetMaxStringLength(p.maxStr)
+		p.b.d.SetMaxStringLength(p.maxStr)
 		return "ok"
 	case t[0] == "allowed" && len(t) == 2:
 		p.a.d.SetAllowedMaxDynamicTableSize(uint32(vu.Atoi(t[1])))
@@ -156,8 +165,8 @@ func (p *pair) step(t []string, o *vu.Out) string {
 				return "bad-op"
 			}
 		}
-		emA, errA, parA := writeAll(p.a, chunksAt(blk, cuts))
-		emB, errB, parB := writeAll(p.b, [][]byte{blk})
+		emA, errA, parA := writeAll(p.a, chunksAt(blk, cuts), p.maxStr, o)
+		emB, errB, parB := writeAll(p.b, [][]byte{blk}, p.maxStr, o)
 		o.Stat("blk:" + strings.Fields(errTag(errA))[0])
 		if len(cuts) > 0 {
 			o.Stat("blk:split")
